@@ -74,7 +74,7 @@ void gen(Trace& tr, int kind, std::mt19937_64& rng) {
   // agreement with the double instantiation on seeded inputs (small integers: ties and null pivots occur)
   std::uniform_int_distribution<int> small(-3, 3);
   std::uniform_real_distribution<double> uni(-2, 2);
-  int nfail = 0, nnone = 0, ntot = 0;
+  int nfail = 0, nnone = 0, ntot = 0, nsing = 0;
   for (int t = 0; t < 400; ++t) {
     Env env;
     std::vector<double> da, db;
@@ -105,14 +105,32 @@ void gen(Trace& tr, int kind, std::mt19937_64& rng) {
     } catch (std::exception&) {
       dfail = true;
     }
+    bool singular = false;
+    {
+      // exactly singular matrix whose elimination is not exact in binary64: the verdict of the double instantiation
+      // depends on rounding (tiny non-null pivot); not a disagreement of the translation
+      long double det = 1;
+      if (N == 1) det = da[0];
+      if (N == 2) det = (long double)da[0] * da[3] - (long double)da[1] * da[2];
+      if (N == 3)
+        det = (long double)da[0] * ((long double)da[4] * da[8] - (long double)da[5] * da[7]) -
+              (long double)da[1] * ((long double)da[3] * da[8] - (long double)da[5] * da[6]) +
+              (long double)da[2] * ((long double)da[3] * da[7] - (long double)da[4] * da[6]);
+      singular = std::fabs(det) < 1e-12L;
+    }
     bool ok = dfail == !err.empty();
     if (dfail) ++nnone;
+
     if (ok && !dfail) {
       ok = d.size() == r.size();
       for (size_t k = 0; ok && k < d.size(); ++k) {
         const long double sc = std::max<long double>(1, std::fabs(r[k]));
         ok = std::fabs(d[k] - r[k]) <= 1e-7L * sc;  // ill-conditioned random systems lose digits in double
       }
+    }
+    if (!ok && singular) {
+      ++nsing;
+      continue;
     }
     if (!ok) {
       ++nfail;
@@ -123,7 +141,7 @@ void gen(Trace& tr, int kind, std::mt19937_64& rng) {
       std::printf("\n");
     }
   }
-  std::printf("AGREE %s cases=%d failures_reported=%d disagreements=%d\n", name.c_str(), ntot, nnone, nfail);
+  std::printf("AGREE %s cases=%d failures_reported=%d disagreements=%d singular_rounding_dependent=%d\n", name.c_str(), ntot, nnone, nfail, nsing);
 }
 
 int main(int argc, char** argv) {
